@@ -5,6 +5,7 @@ import (
 	"fmt"
 	"os"
 	"path/filepath"
+	"sort"
 	"strings"
 	"time"
 
@@ -56,9 +57,9 @@ type faultVec map[int]int
 
 func (f faultVec) String() string {
 	var s []string
-	for i := 0; i < 64; i++ {
+	for i := 0; i < faultConns*faultMsgs; i++ {
 		if k, ok := f[i]; ok {
-			s = append(s, fmt.Sprintf("%s@send%d", faultNames[k], i))
+			s = append(s, fmt.Sprintf("%s@c%d.m%d", faultNames[k], i/faultMsgs, i%faultMsgs))
 		}
 	}
 	if len(s) == 0 {
@@ -67,21 +68,19 @@ func (f faultVec) String() string {
 	return strings.Join(s, ",")
 }
 
-func faultVectors(sends, maxFaults int) []faultVec {
-	if sends > 10 {
-		sends = 10
-	}
+// faultVectors: every assignment of <=maxFaults faults to the positions that exist in the fault-free run.
+func faultVectors(positions []int, maxFaults int) []faultVec {
 	out := []faultVec{{}}
 	if maxFaults >= 1 {
-		for i := 0; i < sends; i++ {
+		for _, i := range positions {
 			for k := 1; k < nFaultKinds; k++ {
 				out = append(out, faultVec{i: k})
 			}
 		}
 	}
 	if maxFaults >= 2 {
-		for i := 0; i < sends; i++ {
-			for j := i + 1; j < sends; j++ {
+		for a, i := range positions {
+			for _, j := range positions[a+1:] {
 				for k := 1; k < nFaultKinds; k++ {
 					for l := 1; l < nFaultKinds; l++ {
 						out = append(out, faultVec{i: k, j: l})
@@ -123,13 +122,31 @@ func repUnit(prop, unit string, env *fw.Env) *fw.Result {
 		res.Violate(fw.FP(prop, name, out.String()), fmt.Sprintf("[%s] fault-free run: %s: %s", name, out, clipS(detail, 600)), unit, map[string]any{"kind": "replication", "scenario": name, "faults": "none"})
 		return res
 	}
-	sends := 0
+	// positions: the first messages of the first connections of the fault-free run (plus one more connection:
+	// a fault usually costs a reconnect)
+	var positions []int
+	seen := map[int]bool{}
+	maxConn := 0
 	for _, l := range base.Log {
-		if strings.HasPrefix(l, "send#") {
-			sends++
+		var idx, c, m int
+		if n, _ := fmt.Sscanf(l, "send#%d c%d.m%d", &idx, &c, &m); n == 3 {
+			if p := faultPos(c, m); p >= 0 && !seen[p] {
+				seen[p] = true
+				positions = append(positions, p)
+			}
+			if c > maxConn {
+				maxConn = c
+			}
 		}
 	}
-	vecs := faultVectors(sends, maxFaults)
+	for m := 0; m < faultMsgs; m++ {
+		if p := faultPos(maxConn+1, m); p >= 0 && !seen[p] {
+			seen[p] = true
+			positions = append(positions, p)
+		}
+	}
+	sort.Ints(positions)
+	vecs := faultVectors(positions, maxFaults)
 	for vi, fv := range vecs {
 		if vi%nsh != shard {
 			continue
@@ -221,7 +238,7 @@ func repUnits(tier string) []string {
 }
 
 func init() {
-	rule := "deterministic fair executions (discrete-event virtual time: timers, tickers, deadlines and sleeps fire in due-time order) of the real replication.Primary (on a real engine, registered as log observer, heartbeat and poll loops running) and the real replication.Replica (state machine, batch applier, engine applier on a second real read-only engine) over an in-memory link that replaces gRPC; 16 scenarios = {single writes incl. delete, a 3-entry transaction, flushes with log rotation} x replica joins before / during / after the writes or is restarted x {default primary configuration, no compression}; for each, every fault vector with <=1 fault (quick) / <=2 faults (thorough) from {drop, duplicate, reorder, connection break} on the first 10 stream messages. "
+	rule := "deterministic fair executions (discrete-event virtual time: timers, tickers, deadlines and sleeps fire in due-time order) of the real replication.Primary (on a real engine, registered as log observer, heartbeat and poll loops running) and the real replication.Replica (state machine, batch applier, engine applier on a second real read-only engine) over an in-memory link that replaces gRPC; 16 scenarios = {single writes incl. delete, a 3-entry transaction, flushes with log rotation} x replica joins before / during / after the writes or is restarted x {default primary configuration, no compression}; for each, every fault vector with <=1 fault (quick) / <=2 faults (thorough) from {drop, duplicate, late duplicate, reorder by one or two messages, connection break} on the first 3 messages of the first 4 connections (the replica of this tree reads one message per connection and reconnects). "
 	fw.Register(&fw.Check{
 		ID: "C13", Level: "model_checking",
 		Rule:        rule + "Oracle C13: the sequence of entries handed to the replica's engine (recording applier) equals the primary's log, in order, none skipped, none applied twice; the reported applied sequence never decreases and never exceeds the highest applied entry. Non-trivial = executions with at least one fault. Part B (every delivery sequence): explicit-state search over the real WALBatchApplier and over the real Replica message handler; a transition delivers one batch [i..j] of a 5-sequence history (15 batches of whole sequences, one a two-entry transaction, real wire encoding), successors by replay on a fresh instance, state = (entries applied, expected next, reported sequence), depth 5 quick / 7 thorough; after every delivery: applied entries = history prefix in order exactly once, reported sequence monotone and not ahead, a batch that continues at the expected sequence is applied completely, any other batch applies nothing and leaves the position alone, a forward gap is answered with a retransmission request from the expected sequence",
